@@ -169,6 +169,20 @@ def parse_regex(text: str, flags=FLAGS):
     return norm_tree(p), p.state.groups - 1, dict(p.state.groupdict)
 
 
+def compiles(text: str, flags=FLAGS):
+    """CPython's whole front end (parser + compiler checks such as fixed-width look-behind) on a witness text."""
+    import warnings
+    with warnings.catch_warnings():
+        warnings.simplefilter("ignore")
+        try:
+            re.compile(text, flags)
+            return True, ""
+        except re.error as e:
+            return False, str(e)
+        except (RecursionError, OverflowError) as e:
+            return False, f"{type(e).__name__}: {e}"
+
+
 def same_regex(a: str, b: str):
     """True iff both parse and yield the same syntax tree (non-capturing groups without
     flags are transparent in CPython's tree, so extra (?:...) never matters)."""
